@@ -61,7 +61,7 @@ def run_group(stage_dir, crate, harnesses, jobs, harness_timeout, mem_gb, tag, e
     if os.path.exists(out_json):
         os.remove(out_json)
     cmd = ["cargo", "kani", "-p", crate, "--output-format", "terse",
-           "-Z", "unstable-options", "--export-json", out_json, "--harness-timeout", "%ds" % harness_timeout, "--exact"]
+           "-Z", "unstable-options", "-Z", "stubbing", "--export-json", out_json, "--harness-timeout", "%ds" % harness_timeout, "--exact"]
     if with_playback:
         jobs = 1
         cmd += ["-Z", "concrete-playback", "--concrete-playback=print"]
